@@ -290,11 +290,11 @@ func (c *c02ctx) r3Typestate() {
 	r, p := c.r, c.p
 	r.Rule("C02.R3", "every ttlvReader value is validated (error checked) before it is read or escapes; Next ends in validate", 4)
 	tt := p.SSAPkg("ttlv")
-	if tt == nil || tt.Type("ttlvReader") == nil {
+	if tt == nil || tt.Type(curTypeName(ttlvPath, "ttlvReader")) == nil {
 		r.Unk("C02.R3", "ttlv.ttlvReader", token.NoPos, "anchor missing")
 		return
 	}
-	rt := tt.Type("ttlvReader").Type()
+	rt := tt.Type(curTypeName(ttlvPath, "ttlvReader")).Type()
 	n := 0
 	copiedInto := map[*ssa.Alloc]bool{}
 	// pre-pass: which allocs are merely the named-local copy of a composite-literal temporary
@@ -453,7 +453,7 @@ func (c *c02ctx) r3Typestate() {
 					bufArg = x.Call.Args[0]
 				}
 			case *ssa.Store:
-				if _, fld, ok := fieldAddrOf(x.Addr); ok && fld.Name() == "buf" {
+				if _, fld, ok := fieldAddrOf(x.Addr); ok && fname(fld) == "buf" {
 					if al, ok := x.Addr.(*ssa.FieldAddr).X.(*ssa.Alloc); ok && types.Identical(al.Type().(*types.Pointer).Elem(), rt) {
 						bufArg = x.Val
 					}
@@ -1032,7 +1032,7 @@ func (c *c02ctx) r5NoWrite() {
 			return taintedParam[x]
 		case *ssa.UnOp:
 			if x.Op == token.MUL {
-				if _, fld, ok := fieldAddrOf(x.X); ok && fld.Name() == "buf" && typeName(x.X.(*ssa.FieldAddr).X.Type()) == "ttlvReader" {
+				if _, fld, ok := fieldAddrOf(x.X); ok && fname(fld) == "buf" && typeName(x.X.(*ssa.FieldAddr).X.Type()) == "ttlvReader" {
 					return true
 				}
 			}
